@@ -227,25 +227,18 @@ func ruleC05Layout(e *Env) (widths []int, hyph []int) {
 		flag   int64
 		prefix string
 	}{{"plain", 0, ""}, {"urn", urnFlag, "urn:uuid:"}} {
-		var captured []pred.Val
 		sid := &pred.StructV{T: idT.Underlying().(*types.Struct), Named: idT, Fields: []pred.Val{pred.SymBits("H", 64, false), pred.SymBits("L", 64, false)}}
-		ev := &pred.Evaluator{Prog: e.P.SSA, GlobalInit: e.globalTables(), Oracle: noOracle{}, Summaries: map[string]pred.Summary{
-			bp.String(): func(ev *pred.Evaluator, args []pred.Val) (pred.Val, error) {
-				captured = args
-				return pred.Sym{Name: "out"}, nil
-			},
-		}}
-		out, err := ev.Eval(fn, []pred.Val{pred.Sym{Name: "buf"}, sid, pred.Const{V: constant.MakeInt64(c.flag)}})
-		if err != nil || captured == nil {
-			msg := "internal.Bprintf is not reached"
-			if err != nil {
-				msg = err.Error()
-			}
-			e.S.Unk(rule, site, c.name, "not evaluable: "+msg, e.Pos(fn))
+		captured, ret, err := e.formatCall(fn, []pred.Val{pred.Sym{Name: "buf"}, sid, pred.Const{V: constant.MakeInt64(c.flag)}})
+		if err != nil {
+			e.S.Unk(rule, site, c.name, "not evaluable: "+err.Error(), e.Pos(fn))
 			continue
 		}
-		if t, ok := out.Ret.(pred.Tuple); !ok || len(t) != 2 || t[0].String() != "out" || t[1].String() != "nil" {
-			e.S.Bad(rule, site, c.name+" result", fmt.Sprintf("the formatter returns %v, not (Bprintf(buf, …), nil)", out.Ret), e.Pos(fn), "")
+		if captured == nil {
+			e.S.Bad(rule, site, c.name+" result", fmt.Sprintf("the formatter returns %v, not (buf followed by one fmt rendering, nil)", ret), e.Pos(fn), "")
+			continue
+		}
+		if t, ok := ret.(pred.Tuple); !ok || len(t) != 2 || t[1].String() != "nil" {
+			e.S.Bad(rule, site, c.name+" result", fmt.Sprintf("the formatter returns %v, not (Bprintf(buf, …), nil)", ret), e.Pos(fn), "")
 		}
 		if captured[0].String() != "buf" {
 			e.S.Bad(rule, site, c.name+" buffer", "Bprintf is not given the caller's buffer", e.Pos(fn), "")
